@@ -35,12 +35,11 @@ func (r *intsRanger) Range() (index, value reflect.Value, end bool) {
 	// >= and not ==: a ranger kept in a variable can be ranged over again after it is spent
 	end = r.val >= r.to
 
-	// The indirection in the ValueOf calls avoids an allocation versus
-	// using the concrete value of 'i' and 'val'. The downside is having
-	// to interpret 'r.i' as "the current value" after Range() returns,
-	// and so it needs to be initialized as -1.
-	index = reflect.ValueOf(&r.i).Elem()
-	value = reflect.ValueOf(&r.val).Elem()
+	// 'r.i' is "the current value" after Range() returns, and so it needs
+	// to be initialized as -1. The values handed out are copies: a variable
+	// bound to them must not change when the ranger moves on.
+	index = reflect.ValueOf(r.i)
+	value = reflect.ValueOf(r.val)
 	return
 }
 
